@@ -1,9 +1,78 @@
-(* C09 — unit propagation.  Property theorems only. *)
+(* C09 — unit propagation is sound, runs to fixpoint, and is exactly undone by pop.
+   Property theorems only.  [pinned = false] is the code as it is now; the theorems that do not
+   depend on the replacement-watch choice are stated for both values. *)
 From Coq Require Import Bool NArith List Arith Lia.
 Import ListNotations.
 From RsddV Require Import Model.UnitProp Proofs.UnitProp.
 
+(* up_sound: after new and after any valid decide/pop history, every frame's model -- in
+   particular the current one -- is entailed by the CNF and the decisions on the stack. *)
+Theorem C09_up_sound : forall pinned cls nvars s0 s ds,
+  sat_new pinned cls nvars = NewSome s0 -> reaches pinned s0 s ds ->
+  stack_sound cls (s_stack s) ds /\ entailed cls ds (ss_model (top_state s)).
+Proof. exact up_sound. Qed.
+Check C09_up_sound : forall pinned cls nvars s0 s ds,
+  sat_new pinned cls nvars = NewSome s0 -> reaches pinned s0 s ds ->
+  stack_sound cls (s_stack s) ds /\ entailed cls ds (ss_model (top_state s)).
+Print Assumptions C09_up_sound.
+
+(* unsat_sound: None from new only if the CNF has no model; UNSAT from decide only if no model
+   of the CNF extends the decisions on the stack and the new literal. *)
+Theorem C09_unsat_sound_new : forall pinned cls nvars,
+  sat_new pinned cls nvars = NewNone -> forall a, cnf_holds a cls = false.
+Proof. exact unsat_sound_new. Qed.
+Print Assumptions C09_unsat_sound_new.
+
+Theorem C09_unsat_sound_decide : forall pinned cls nvars s0 s ds l s',
+  sat_new pinned cls nvars = NewSome s0 -> reaches pinned s0 s ds ->
+  sat_decide pinned s l = (s', DUNSAT) -> forall a, ~ sat_with a cls (l :: ds).
+Proof. exact unsat_sound_decide. Qed.
+Print Assumptions C09_unsat_sound_decide.
+
+(* pop_restores: decide;pop, and more generally any history that returns to its starting depth
+   without popping below it, leaves the whole stack (model, hash, satisfied set of every frame)
+   as it was.  The watch lists are not restored and are not mentioned. *)
+Theorem C09_pop_restores_step : forall pinned s a s' r,
+  sat_decide pinned s a = (s', r) -> r = DSAT \/ r = DUnknown ->
+  s_stack (sat_pop s') = s_stack s /\ s_clauses (sat_pop s') = s_clauses s /\
+  s_cnf (sat_pop s') = s_cnf s /\ s_nvars (sat_pop s') = s_nvars s.
+Proof. exact pop_restores_step. Qed.
+Print Assumptions C09_pop_restores_step.
+
+Theorem C09_pop_restores : forall pinned s ops s',
+  run_track pinned s [] ops = Some (s', []) ->
+  s_stack s' = s_stack s /\ s_clauses s' = s_clauses s.
+Proof. exact pop_restores. Qed.
+Print Assumptions C09_pop_restores.
+
+Theorem C09_unsat_keeps_stack : forall pinned s a s',
+  sat_decide pinned s a = (s', DUNSAT) -> s_stack s' = s_stack s /\ s_clauses s' = s_clauses s.
+Proof. exact unsat_keeps_stack. Qed.
+Print Assumptions C09_unsat_keeps_stack.
+
+(* sat_flag_iff: is_sat() (satisfied-set size = number of non-tautological clauses, as coded)
+   holds exactly when every non-tautological clause of the CNF has a true literal; and
+   DecisionResult::SAT is returned exactly when is_sat() holds afterwards. *)
+Theorem C09_sat_flag_iff : forall pinned cls nvars s0 s ds,
+  sat_new pinned cls nvars = NewSome s0 -> reaches pinned s0 s ds ->
+  (sat_is_sat s = true <-> all_nontaut_sat cls (ss_model (top_state s))).
+Proof. exact sat_flag_iff. Qed.
+Print Assumptions C09_sat_flag_iff.
+
+Theorem C09_decide_sat_iff_is_sat : forall pinned s a s' r,
+  sat_decide pinned s a = (s', r) -> r = DSAT \/ r = DUnknown -> (r = DSAT <-> sat_is_sat s' = true).
+Proof. exact decide_sat_iff_is_sat. Qed.
+Print Assumptions C09_decide_sat_iff_is_sat.
+
+(* D2 (pinned code): after decide(x0=T), pop, decide(x2=F), decide(x0=T) on (¬x0 ∨ ¬x1 ∨ x2),
+   x1 is left unassigned although the clause is unit; the repaired code assigns it. *)
 Theorem C09_up_fixpoint_refuted_pinned :
-  final_model true d2_cnf d2_hist = Some [Some true; None; Some false].
+  final_state true d2_cnf d2_hist = Some ([Some true; None; Some false], [(0, true); (2, false)]) /\
+  fixpoint_ok (cnf_new d2_cnf) [Some true; None; Some false] = false.
 Proof. exact d2_pinned. Qed.
 Print Assumptions C09_up_fixpoint_refuted_pinned.
+
+Example C09_nonvacuous :
+  final_state false d2_cnf d2_hist = Some ([Some true; Some false; Some false], [(0, true); (2, false)]) /\
+  fixpoint_ok (cnf_new d2_cnf) [Some true; Some false; Some false] = true.
+Proof. exact d2_repaired. Qed.
